@@ -904,7 +904,47 @@ class C13(common.Prop):
         d = np.abs(np.where(inmask, 0.0, v2 - orig)).max(initial=0)
         if d > tol * case["s"] * 30:
             return {"what": "unnormalize_distribution does not restore the original: off by %.3g" % float(d), "clause": "unnormalize"}
+        # the caller supplies the mean (another recording's) and leaves the deviation to be computed: the deviation is the data's
+        # own - unit deviation about the data's own mean after the call - and the returned statistics still restore the original
+        if case["lead"]:
+            ext = self.impl_dist_external_mean(case)
+            if ext is not None:
+                if ext[0] == "err":
+                    return {"what": "normalize_distribution(mu=<given>) raised %s" % ext[1], "clause": "dist-given-mean-raises"}
+                e1, em, e2 = ext[1]
+                w = np.where(em, 0.0, e1)
+                with np.errstate(all="ignore"):
+                    mean = w.sum(axis=ax) / cnt
+                    dev = np.sqrt((np.where(em, 0.0, (e1 - np.expand_dims(mean, ax)) ** 2)).sum(axis=ax) / cnt)
+                if e1.shape == inmask.shape and np.abs(dev[ok] - 1).max(initial=0) > tol:
+                    return {"what": "with a given mean and a computed deviation the deviation over axes %s is off 1 by %.3g"
+                                    % (ax, float(np.abs(dev[ok] - 1).max())), "clause": "dist-std-given-mean"}
+                d = np.abs(np.where(inmask, 0.0, e2 - orig)).max(initial=0) if e2.shape == orig.shape else float("inf")
+                if d > tol * case["s"] * 30:
+                    return {"what": "with a given mean unnormalize_distribution does not restore the original: off by %.3g" % float(d),
+                            "clause": "unnormalize-given-mean"}
         return None
+
+    def impl_dist_external_mean(self, case):
+        F, P, N, D = case["shape"]
+        arr = np.array(case["data"], dtype=np.float64).reshape(F, P, N, D)
+        mask = np.array(case["mask"], dtype=bool).reshape(F, P, N)
+        try:
+            ax = tuple(case["axes"])
+            p0 = self.m["Pose"](self.header(None, N, D), self.body(case["backend"], case["shape"], arr, mask))
+            mu0, _ = p0.normalize_distribution(axis=ax)
+            mu_ext = mu0 + 0.37 * case["s"]
+            pose = self.m["Pose"](self.header(None, N, D), self.body(case["backend"], case["shape"], arr, mask))
+        except Exception:
+            return None
+        try:
+            mu, std = pose.normalize_distribution(mu=mu_ext, axis=ax)
+            v1, m1 = self.dump(case["backend"], pose.body.data)
+            pose.unnormalize_distribution(mu, std)
+            v2, _ = self.dump(case["backend"], pose.body.data)
+        except Exception as e:
+            return ("err", type(e).__name__)
+        return ("ok", (v1, m1, v2))
 
     def measure3d(self, case, vals, missing, rows_ok, tol):
         """post-conditions of the 3-D normaliser on the rows whose reference points are observed"""
